@@ -63,6 +63,7 @@ type DataSpec struct {
 	NRows         int        `json:"nrows"`
 	Cols          []ColSpec  `json:"cols"`
 	TrailingEmpty int        `json:"trailing_empty"`
+	OddNames      bool       `json:"odd_names,omitempty"`
 	Rows          [][]string `json:"rows,omitempty"` // explicit rows (hex k,v,k,v...) override the generator
 }
 
@@ -82,9 +83,13 @@ func valueOf(style string, j int) string {
 	case "quote":
 		return fmt.Sprintf("q\"%d\"\n", j)
 	case "concatA": // with column "a": ("a","bx") has the same concatenation as ("ab","x")
-		return []string{"bx", "b", "bxy", "c"}[j%4]
+		return []string{"bx", "b", "bxy", "c", "bx" + longTail, "b" + longTail}[j%6]
 	case "concatAB":
-		return []string{"x", "", "xy", "c"}[j%4]
+		return []string{"x", "", "xy", "c", "x" + longTail, longTail}[j%6]
+	case "eqsign": // values and column names that make "column=value" style keys ambiguous
+		return []string{"v", "=v", "k=v", "", "v="}[j%5]
+	case "long":
+		return fmt.Sprintf("%d-%s", j, longTail)
 	default:
 		return fmt.Sprintf("%d", j)
 	}
@@ -139,6 +144,9 @@ func (d *DataSpec) Materialize() []map[string]string {
 	return out
 }
 
+// longer than any small-input fast path a hash implementation might have (xxhash switches at 32 bytes)
+const longTail = "://example.org/a/rather/long/value/that/exceeds/sixty-four/bytes/in/total/0123456789"
+
 var identNames = []string{"a", "b", "c", "country", "x1", "Tag", "k_2", "z", "col9", "Q", "count", "ab"}
 var oddNames = []string{"", " ", "a b", "ü", "\xff\x00x"[0:1], "a=b", "\"", "0col", "a,b"}
 
@@ -146,7 +154,7 @@ var oddNames = []string{"", " ", "a b", "ü", "\xff\x00x"[0:1], "a=b", "\"", "0c
 func genDataSpecUTF8(r *Rng, maxRows int) *DataSpec {
 	d := genDataSpec(r, maxRows, true)
 	for i := range d.Cols {
-		if d.Cols[i].Style == "binary" {
+		if d.Cols[i].Style == "binary" || d.Cols[i].Style == "nulval" {
 			d.Cols[i].Style = "utf8"
 		}
 	}
@@ -190,7 +198,7 @@ func genDataSpecN(r *Rng, n int, identOnly bool) *DataSpec {
 		if r.Chance(1, 3) {
 			c.Missing = Pick(r, []int{5, 30, 70, 100})
 		}
-		c.Style = Pick(r, []string{"ascii", "ascii", "ascii", "empty", "utf8", "binary", "nulval", "quote"})
+		c.Style = Pick(r, []string{"ascii", "ascii", "ascii", "empty", "utf8", "binary", "nulval", "quote", "long"})
 		d.Cols = append(d.Cols, c)
 	}
 	if r.Chance(1, 4) {
@@ -199,8 +207,8 @@ func genDataSpecN(r *Rng, n int, identOnly bool) *DataSpec {
 	if r.Chance(1, 7) && !used["a"] && !used["ab"] {
 		// prefix-related column names whose values complete the same concatenation: only the 0x00 separator in
 		// the value index keeps ("a","bx") and ("ab","x") apart
-		d.Cols = append(d.Cols, ColSpec{Name: hx("a"), NVals: 4, Dist: "random", Style: "concatA", Missing: 30},
-			ColSpec{Name: hx("ab"), NVals: 4, Dist: "random", Style: "concatAB", Missing: 30})
+		d.Cols = append(d.Cols, ColSpec{Name: hx("a"), NVals: 6, Dist: "random", Style: "concatA", Missing: 30},
+			ColSpec{Name: hx("ab"), NVals: 6, Dist: "random", Style: "concatAB", Missing: 30})
 	}
 	return d
 }
